@@ -24,7 +24,7 @@ FIXED = {
     "Instant": ["g", "'{'uuuu-MM-dd HH:mm'}'", "uuuu''MM''dd HH", "uuuu-MM-dd'T'HH:mm:ss'Z'", "dd/MM/uuuu HH:mm:ss.fff", "yyyy-MM-dd HH:mm g"],
     "AnnualDate": ["G", "'{'MM-dd'}'", "MM''dd", "MM-dd", "d MMMM", "MMM d"],
 }
-ALPH = list("0123456789:/-.+ ,TZtzaApPmM\0٣３é\u0301\ud800'\"\\%<>{}") + ["{0}", "{", "}", "{x}", "%s", "{0:d}", "12", "99", "00", "0000", "10000", "-", "24", "60", "61", "13", "31", "19", "23:59:59"]
+ALPH = list("0123456789:/-.+ ,TZtzaApPmM\0٣３²①½൧𝟗é\u0301\ud800'\"\\%<>{}") + ["{0}", "{", "}", "{x}", "%s", "{0:d}", "12", "99", "00", "0000", "10000", "-", "24", "60", "61", "13", "31", "19", "23:59:59"]
 DIRECT = {
     "LocalTime": ["24:00:00", "23:60:00", "23:59:60", "12:00:00.1234567890", "-1:00:00", "25:61:61"],
     "LocalDate": ["2023-13-01", "2023-02-30", "2023-02-31", "2023-04-31", "10000-01-01", "-10000-01-01", "2023-00-10", "2023-01-00", "0000-01-01", "99999999999-01-01"],
